@@ -107,7 +107,7 @@ fn oracle() -> Oracle {
                 (Some(_), Some(oi)) if seen.deviation_call.is_some() && seen.deviation_call == o.calls_after.get(k + 1).map(|n| n.wrapping_sub(1)) && o.calls_after.get(k + 1) > o.calls_after.get(k) => {
                     // the row whose answer broke the layout: an error item (C13's), nothing to compare
                     st.witness("row_with_an_answer_of_the_wrong_length");
-                    if matches!(oi, ObsItem::Runtime(_)) {
+                    if matches!(oi, ObsItem::Runtime(_) | ObsItem::DriverErr(_)) {
                         None
                     } else {
                         Some(format!("item {k}: expected an error item for an answer that departs from the first layout, got {}", oi.brief()))
@@ -236,6 +236,43 @@ pub fn run(tier: Tier, seed: u64) -> i32 {
             c.continue_after_call_errors = true;
             cases.push(c);
         }
+    }
+    // an X-expanded row whose reads may fail one by one (the caller carries on): what a later expression
+    // reads is the answer of the latest call that did return; and operators are strict: a Z or X operand
+    // is an error whatever the other operand is
+    {
+        let l = |n: i64| Entry::Lit(n, Radix::Dec);
+        let rowq = || Stmt::Row(vec![Entry::Paren(name("Q")), l(0), Entry::X, Entry::X]);
+        let sigs = lists().remove(0);
+        let normal = answers(&sigs, None, &[V::Num(0), V::Num(1), V::Num(2)]);
+        let mut menu = normal.clone();
+        menu.push(MenuItem { step: crate::driver::Step::Fault(66), deviation: true, label: "fault".into() });
+        let progs = vec![
+            ("X row then reads", vec![Stmt::Row(vec![Entry::X, l(0), Entry::X, Entry::X]), rowq(), Stmt::Let("a".into(), name("Q")), Stmt::Row(vec![Entry::X, Entry::C, Entry::X, Entry::X]), Stmt::Row(vec![Entry::Paren(bin(BinOp::Add, name("a"), name("Q"))), l(0), Entry::X, Entry::X])]),
+            ("X row inside a loop whose bound is read afterwards", vec![Stmt::Loop("k".into(), lit(2), vec![Stmt::Row(vec![Entry::X, l(0), Entry::X, Entry::X]), rowq()]), Stmt::Repeat(name("Q"), vec![Entry::Paren(name("n")), l(0), Entry::X, Entry::X])]),
+        ];
+        for (nm, body) in progs {
+            let prog = Program { header: header.clone(), body };
+            let mut c = Case::new(&format!("{nm}, one driver fault, caller carries on"), prog, sigs.clone(), true, normal.clone(), menu.clone(), 14);
+            c.dev_budget = 1;
+            c.continue_after_call_errors = true;
+            cases.push(c);
+        }
+        let strict = vec![
+            Stmt::Row(vec![Entry::Paren(bin(BinOp::And, lit(0), name("Q"))), l(0), Entry::X, Entry::X]),
+            Stmt::Row(vec![Entry::Paren(bin(BinOp::Or, un(UnOp::Neg, lit(1)), name("Q"))), l(0), Entry::X, Entry::X]),
+            Stmt::Row(vec![Entry::Paren(bin(BinOp::Mul, name("Q"), lit(0))), l(0), Entry::X, Entry::X]),
+            Stmt::Let("a".into(), bin(BinOp::And, name("DONE"), name("Q"))),
+            Stmt::Loop("k".into(), lit(1), vec![Stmt::Row(vec![Entry::Paren(bin(BinOp::And, name("k"), name("Q"))), l(0), Entry::X, Entry::X])]),
+            Stmt::While(bin(BinOp::And, lit(0), name("Q")), vec![rowq()]),
+            rowq(),
+        ];
+        let prog = Program { header: header.clone(), body: strict };
+        let m2 = answers(&sigs, None, &[V::Num(1), V::Z, V::X]);
+        let mut c = Case::new("operators are strict in both operands (0 & Q, -1 | Q, Q * 0 with Q = Z / X)", prog, sigs.clone(), true, m2.clone(), m2, 10);
+        c.continue_after_call_errors = true;
+        c.continue_after_row_errors = true;
+        cases.push(c);
     }
     // device values that do not fit the width of the output they are reported for (a sign-extended
     // reading, stray high bits): an expression reads the value the driver returned
